@@ -1,66 +1,154 @@
 import OntVerif.Proofs.ConnCtl
+import OntVerif.Proofs.ConnCtlHist
 /-!
 # C36 — peer connection limits hold under concurrent connection attempts
 
-`Model/ConnCtl.lean`: every connection attempt is a thread with a program counter, the shared state is the
-controller's address sets, a schedule is a list of thread ids.  `C36_full v` says that after EVERY schedule of ANY
-number of threads (hence in every reachable state) the controller's counters respect the three configured limits.
+`Model/ConnCtl.lean` mirrors the controller as it is in the tree (slot reservation of commit 280bc886): every
+connection attempt is a thread with a program counter, the shared state is the controller's address sets, a schedule
+is a list of thread ids — including repeated `Close()`s of stale `Conn` handles.
 
-* `Variant.asShipped` (the code as it is): false — `beforeHandshakeCheck` … handshake … `savePeer` is
-  check-then-act, for the inbound, the per-IP and the outbound limit alike (`C36_asShipped_counterexample*`).
-* `Variant.sound` (the controller with `fixes/C36-reserve-slot.patch`): `C36_sound`, by invariant induction over all
-  schedules; `C36_sound_established` strengthens the conclusion from the counters to the number of connections
-  actually established, `C36_sound_reserved` to established + reserved slots.
+* `C36_sound`: after EVERY schedule of ANY number of threads (hence in every reachable state) the controller's counters
+  respect the three configured limits — for the code as it is and for the `Conn.Close`-once repair alike;
+  `C36_sound_reserved` strengthens the conclusion to established + reserved slots.
+* `C36_established_full`: the number of connections actually ESTABLISHED respects the limits.  False for the code as
+  it is (`C36_established_asShipped_counterexample`: a second `Close()` of a stale `Conn` after the same address has
+  reconnected removes the live connection's record, the freed slot admits one connection too many); true for
+  `fixes/C36-stale-close.patch` (`C36_established_sound`) and, for the code as it is, along every schedule that
+  closes no `Conn` twice (`C36_established_asShipped_partial`).
+* `C36_historical_*`: the controller before 280bc886 (`Model/ConnCtlHist.lean:stepHist`, an explicitly historical
+  function) violated all three limits by check-then-act; kept as checked refutations plus what did hold for it.
 -/
 namespace OntVerif.Props.C36
 open OntVerif.Model.ConnCtl OntVerif.Proofs.ConnCtl
 
-/-- **The property**: for all configurations, all sets of connection attempts and all interleavings of their
-atomic actions, inbound ≤ MaxConnInBound ∧ per-IP inbound ≤ MaxConnInBoundForSingleIP ∧ outbound ≤ MaxConnOutBound. -/
+/-- **The property on the controller's counters**: for all configurations, all sets of connection attempts and all
+interleavings of their atomic actions (accepts, dials, handshake outcomes, closes, repeated closes),
+inbound ≤ MaxConnInBound ∧ per-IP inbound ≤ MaxConnInBoundForSingleIP ∧ outbound ≤ MaxConnOutBound. -/
 def C36_full (v : Variant) : Prop :=
   ∀ (cfg : Cfg) (ths : List Thread) (sched : List Nat), (∀ t ∈ ths, t.pc = .start) →
     LimitsHold (run v (init cfg ths) sched)
 
-/-- full statement for the repaired controller: every schedule, any number of connections -/
-theorem C36_sound : C36_full .sound := fun cfg ths sched h =>
-  (run_sound_inv (inv_init cfg ths h) sched).limits
+/-- holds for the code as it is (`.asShipped`) and with the stale-close repair (`.sound`):
+every schedule, any number of connections -/
+theorem C36_sound : ∀ v, C36_full v := fun v cfg ths sched h =>
+  (run_inv v (inv_init cfg ths h) sched).limits
+
+theorem run_cfg (v : Variant) (s : State) (sched : List Nat) : (run v s sched).cfg = s.cfg := by
+  induction sched generalizing s with
+  | nil => rfl
+  | cons i r ih =>
+    show (run v (step v s i) r).cfg = s.cfg
+    rw [ih]; exact step_cfg v s i
 
 /-- stronger: established **plus reserved** slots never exceed the limits (a reservation is never over-committed) -/
-theorem C36_sound_reserved (cfg : Cfg) (ths : List Thread) (sched : List Nat) (h : ∀ t ∈ ths, t.pc = .start) :
-    let s := run .sound (init cfg ths) sched
+theorem C36_sound_reserved (v : Variant) (cfg : Cfg) (ths : List Thread) (sched : List Nat)
+    (h : ∀ t ∈ ths, t.pc = .start) :
+    let s := run v (init cfg ths) sched
     (∀ d, (s.bound d).length + (s.pend d).length ≤ cfg.max d) ∧
     (∀ ip, cnt ip (s.bound .inb) + cnt ip (s.pend .inb) ≤ cfg.maxIp) := by
-  have hi := run_sound_inv (inv_init cfg ths h) sched
-  have hc : (run .sound (init cfg ths) sched).cfg = cfg := by
-    have : ∀ (s : State) (sched : List Nat), (run .sound s sched).cfg = s.cfg := by
-      intro s sched
-      induction sched generalizing s with
-      | nil => rfl
-      | cons i r ih =>
-        show (run .sound (step .sound s i) r).cfg = s.cfg
-        rw [ih]; exact step_cfg .sound s i
-    exact this _ _
+  have hi := run_inv v (inv_init cfg ths h) sched
   have := hi.reserved_le
-  rw [hc] at this
+  rw [run_cfg] at this
   exact this
 
-/-- stronger: the number of connections actually **established** (returned by `AcceptConnect`/`Connect`, not yet
-closed) — not only the size of the controller's address sets — respects the limits, in total and per remote ip -/
-theorem C36_sound_established (cfg : Cfg) (ths : List Thread) (sched : List Nat) (h : ∀ t ∈ ths, t.pc = .start) :
-    let s := run .sound (init cfg ths) sched
-    established s .inb ≤ s.cfg.maxIn ∧ (∀ ip, establishedIp s ip ≤ s.cfg.maxIp) ∧ established s .outb ≤ s.cfg.maxOut := by
+/-! ## Established connections, stale `Conn` handles -/
+
+/-- **The property on the connections themselves**: the number of connections actually established (returned by
+`AcceptConnect`/`Connect`, not yet closed) — not only the size of the controller's address sets — respects the
+limits, in total and per remote ip, after every schedule. -/
+def C36_established_full (v : Variant) : Prop :=
+  ∀ (cfg : Cfg) (ths : List Thread) (sched : List Nat), (∀ t ∈ ths, t.pc = .start) →
+    let s := run v (init cfg ths) sched
+    established s .inb ≤ cfg.maxIn ∧ (∀ ip, establishedIp s ip ≤ cfg.maxIp) ∧ established s .outb ≤ cfg.maxOut
+
+/-- full statement for `fixes/C36-stale-close.patch` (`removePeer` once per `Conn`) -/
+theorem C36_established_sound : C36_established_full .sound := by
+  intro cfg ths sched h
   have hf := run_sound_invF ⟨inv_init cfg ths h, invE_init cfg ths h⟩ sched
   obtain ⟨l1, l2, l3⟩ := hf.1.limits
+  rw [run_cfg] at l1 l2 l3
   exact ⟨Nat.le_trans (hf.2.established_le .inb) l1,
     fun ip => Nat.le_trans (hf.2.establishedIp_le ip) (l2 ip),
     Nat.le_trans (hf.2.established_le .outb) l3⟩
 
-/-! ## The shipped controller: check-then-act -/
+/-- A connects from 10.0.0.1:5000 and closes; B reconnects from the same address; C comes from another port -/
+def staleThreads : List Thread :=
+  [{ dir := .inb, ip := 1, port := 5000, lport := 20338, pid := 1, fate := .ok },
+   { dir := .inb, ip := 1, port := 5000, lport := 20338, pid := 2, fate := .ok },
+   { dir := .inb, ip := 1, port := 5001, lport := 20338, pid := 3, fate := .ok }]
+
+/-- A: check, reserve, save, close · B: check, reserve, save · A: Close() AGAIN · C: check, reserve, save -/
+def staleSchedule : List Nat := [0, 0, 0, 0, 1, 1, 1, 0, 2, 2, 2]
+
+/-- the code as it is: the stale close drops B's record, C is admitted, two connections are established with
+limit 1 (and per-IP limit 1).  Replay: `S:1:1:1:* i0.1.5000.20338.1.ok;i0…;i0…;i1.1.5000.20338.2.ok;i1…;i0…;i2.1.5001.20338.3.ok;i2…` -/
+theorem C36_established_asShipped_counterexample : ¬ C36_established_full .asShipped := by
+  intro h
+  have := (h { maxIn := 1, maxIp := 1, maxOut := 1 } staleThreads staleSchedule (by decide)).1
+  revert this
+  decide
+
+/-- what holds for the code as it is: along every schedule that closes no `Conn` twice (the only way the shipped
+call chain `Link.CloseConn` uses it) established connections respect the limits -/
+theorem C36_established_asShipped_partial (cfg : Cfg) (ths : List Thread) (sched : List Nat)
+    (h : ∀ t ∈ ths, t.pc = .start) (hs : StaleFreeRun .asShipped (init cfg ths) sched) :
+    let s := run .asShipped (init cfg ths) sched
+    established s .inb ≤ cfg.maxIn ∧ (∀ ip, establishedIp s ip ≤ cfg.maxIp) ∧ established s .outb ≤ cfg.maxOut := by
+  rw [run_eq_of_staleFree hs]
+  exact C36_established_sound cfg ths sched h
+
+/-- the hypothesis is satisfiable by a run with overlapping handshakes that fills the limit -/
+example : StaleFreeRun .asShipped (init { maxIn := 2, maxIp := 2, maxOut := 1 } staleThreads) [0, 2, 0, 2, 2, 0, 2, 0] ∧
+    established (run .asShipped (init { maxIn := 2, maxIp := 2, maxOut := 1 } staleThreads) [0, 2, 0, 2, 2, 0, 2]) .inb = 2 := by
+  refine ⟨?_, by decide⟩
+  simp only [StaleFreeRun, and_true]
+  decide
+
+/-! ## Non-vacuity: the controller admits connections up to the limits and refuses the racing one -/
 
 /-- two remote peers (different ips), each a well-behaved inbound connection -/
 def twoInbound : List Thread :=
   [{ dir := .inb, ip := 1, port := 5000, lport := 20338, pid := 1, fate := .ok },
    { dir := .inb, ip := 2, port := 5001, lport := 20338, pid := 2, fate := .ok }]
+
+/-- T1.check, T2.check, (enter handshakes), T1.save, T2.save -/
+def raceSchedule : List Nat := [0, 1, 0, 1, 0, 1]
+
+/-- on the race schedule the first connection is established and the second refused at its check -/
+example : (run .asShipped (init { maxIn := 1, maxIp := 3, maxOut := 1 } twoInbound) raceSchedule).bound .inb = [(1, 5000)]
+    ∧ ((run .asShipped (init { maxIn := 1, maxIp := 3, maxOut := 1 } twoInbound) raceSchedule).threads.map (·.pc))
+        = [.saved, .closed] := by decide
+
+/-- with room for both, both handshakes overlap and both connections are established: the limit is reached, not
+merely respected (T2's check waits for `reserveMu` until T1 has recorded its reservation) -/
+example : ((run .asShipped (init { maxIn := 2, maxIp := 3, maxOut := 1 } twoInbound) [0, 1, 0, 1, 1, 0, 1]).bound .inb).length = 2 := by
+  decide
+
+/-- a reservation released by a failed handshake is available again -/
+example :
+    let ths : List Thread :=
+      [{ dir := .inb, ip := 1, port := 5000, lport := 20338, pid := 1, fate := .hsFail },
+       { dir := .inb, ip := 1, port := 5001, lport := 20338, pid := 2, fate := .ok }]
+    ((run .asShipped (init { maxIn := 1, maxIp := 1, maxOut := 1 } ths) [0, 0, 0, 1, 1, 1]).bound .inb) = [(1, 5001)] := by
+  decide
+
+/-- a refused duplicate dial does not touch the reservation of the dial in flight: a third dial to another address
+still finds the only slot taken (the regression seeded against 280bc886) -/
+example :
+    let ths : List Thread :=
+      [{ dir := .outb, ip := 1, port := 20338, lport := 20338, pid := 1, fate := .ok },
+       { dir := .outb, ip := 1, port := 20338, lport := 20338, pid := 2, fate := .ok },
+       { dir := .outb, ip := 2, port := 20338, lport := 20338, pid := 3, fate := .ok }]
+    let s := run .asShipped (init { maxIn := 1, maxIp := 1, maxOut := 1 } ths) [0, 0, 1, 2, 0]
+    s.threads.map (·.pc) = [.saved, .closed, .closed] ∧ s.bound .outb = [(1, 20338)] := by
+  decide
+
+/-! ## HISTORICAL: the controller before commit 280bc886 (`stepHist`) — check-then-act -/
+
+/-- the counter-level property, stated for the explicitly historical step function -/
+def C36_full_historical : Prop :=
+  ∀ (cfg : Cfg) (ths : List Thread) (sched : List Nat), (∀ t ∈ ths, t.pc = .start) →
+    LimitsHold (runHist (init cfg ths) sched)
 
 /-- two connections from the same remote ip -/
 def twoSameIp : List Thread :=
@@ -72,81 +160,57 @@ def twoOutbound : List Thread :=
   [{ dir := .outb, ip := 1, port := 20338, lport := 20338, pid := 1, fate := .ok },
    { dir := .outb, ip := 2, port := 20338, lport := 20338, pid := 2, fate := .ok }]
 
-/-- T1.check, T2.check, (enter handshakes), T1.save, T2.save -/
-def raceSchedule : List Nat := [0, 1, 0, 1, 0, 1]
-
-/-- inbound limit 1, witness `S:1:3:1:* i0.1.5000.20338.1.ok;i1.2.5001.20338.2.ok;i0…;i1…` (the finding's replay) -/
-theorem C36_asShipped_counterexample : ¬ C36_full .asShipped := by
+/-- inbound limit 1, witness `S:1:3:1:* i0.1.5000.20338.1.ok;i1.2.5001.20338.2.ok;i0…;i1…` (corpus/C36: a reversion
+of 280bc886 is a VIOLATION) -/
+theorem C36_historical_counterexample : ¬ C36_full_historical := by
   intro h
   have := (h { maxIn := 1, maxIp := 3, maxOut := 1 } twoInbound raceSchedule (by decide)).1
   revert this
   decide
 
-/-- the per-IP limit alone is violated the same way (total inbound limit 3 respected) -/
-theorem C36_asShipped_counterexample_perIp :
+/-- the per-IP limit alone was violated the same way (total inbound limit 3 respected) -/
+theorem C36_historical_counterexample_perIp :
     ¬ ∀ (cfg : Cfg) (ths : List Thread) (sched : List Nat), (∀ t ∈ ths, t.pc = .start) →
-        ∀ ip, cnt ip ((run .asShipped (init cfg ths) sched).bound .inb) ≤ cfg.maxIp := by
+        ∀ ip, cnt ip ((runHist (init cfg ths) sched).bound .inb) ≤ cfg.maxIp := by
   intro h
   have := h { maxIn := 3, maxIp := 1, maxOut := 3 } twoSameIp raceSchedule (by decide) 1
   revert this
   decide
 
-/-- so is the outbound limit: the `connecting` set holds the dialled address, it does not reserve a slot -/
-theorem C36_asShipped_counterexample_outbound :
+/-- so was the outbound limit: the `connecting` set holds the dialled address, it does not reserve a slot -/
+theorem C36_historical_counterexample_outbound :
     ¬ ∀ (cfg : Cfg) (ths : List Thread) (sched : List Nat), (∀ t ∈ ths, t.pc = .start) →
-        ((run .asShipped (init cfg ths) sched).bound .outb).length ≤ cfg.maxOut := by
+        ((runHist (init cfg ths) sched).bound .outb).length ≤ cfg.maxOut := by
   intro h
   have := h { maxIn := 1, maxIp := 1, maxOut := 1 } twoOutbound raceSchedule (by decide)
   revert this
   decide
 
-/-- two dials to the SAME address whose checks both precede the first `savePeer` (the second passes
-`tryAddConnecting` after the first dial has finished): two connections are established while the address set — a set —
-holds one entry.  The shipped controller's counter then under-counts the established connections (and drops to 0 when
-either of them closes).  Exhibited by the model only: this interleaving separates the check from `tryAddConnecting`
-without any I/O in between, so the harness cannot force it. -/
-theorem C36_asShipped_sameAddr_undercount :
+/-- two dials to the SAME address whose checks both precede the first `savePeer`: two connections established, one
+set entry (model-only: no I/O separates the check from `tryAddConnecting`, the harness cannot force it).  The
+reservation of 280bc886 closes this too: the second check sees the pending address (`dup`). -/
+theorem C36_historical_sameAddr_undercount :
     let ths : List Thread :=
       [{ dir := .outb, ip := 1, port := 20338, lport := 20338, pid := 1, fate := .ok },
        { dir := .outb, ip := 1, port := 20338, lport := 20338, pid := 1, fate := .ok }]
-    let s := run .asShipped (init { maxIn := 1, maxIp := 1, maxOut := 1 } ths) [0, 1, 0, 0, 1, 1]
+    let s := runHist (init { maxIn := 1, maxIp := 1, maxOut := 1 } ths) [0, 1, 0, 0, 1, 1]
     (s.bound .outb).length = 1 ∧ established s .outb = 2 := by
   decide
 
-/-- what does hold for the shipped controller (and is what the repository's sequential tests exercise): along a run in
-which connection attempts of one direction never overlap between their check and their `savePeer`, the limits hold.
-The full statement fails exactly because overlapping attempts are possible (`C36_asShipped_counterexample`). -/
-theorem C36_asShipped_sequential_partial (cfg : Cfg) (ths : List Thread) (sched : List Nat)
-    (h : ∀ t ∈ ths, t.pc = .start) (hno : NoOverlapRun .asShipped (init cfg ths) sched) :
-    LimitsHold (run .asShipped (init cfg ths) sched) :=
-  (run_asShipped_invK (invK_init cfg ths h) sched hno).limits
+/-- what did hold for the historical controller (and is what the repository's sequential tests exercise): along a
+run in which connection attempts of one direction never overlap between their check and their `savePeer`, the
+limits hold. -/
+theorem C36_historical_sequential_partial (cfg : Cfg) (ths : List Thread) (sched : List Nat)
+    (h : ∀ t ∈ ths, t.pc = .start) (hno : NoOverlapRunHist (init cfg ths) sched) :
+    LimitsHold (runHist (init cfg ths) sched) :=
+  (runHist_invK (invK_init cfg ths h) sched hno).limits
 
 /-- the hypothesis is satisfiable by a run that establishes a connection and refuses the next one -/
-example : NoOverlapRun .asShipped (init { maxIn := 1, maxIp := 3, maxOut := 1 } twoInbound) [0, 0, 0, 1, 1, 0] ∧
-    ((run .asShipped (init { maxIn := 1, maxIp := 3, maxOut := 1 } twoInbound) [0, 0, 0, 1]).threads.map (·.pc))
+example : NoOverlapRunHist (init { maxIn := 1, maxIp := 3, maxOut := 1 } twoInbound) [0, 0, 0, 1, 1, 0] ∧
+    ((runHist (init { maxIn := 1, maxIp := 3, maxOut := 1 } twoInbound) [0, 0, 0, 1]).threads.map (·.pc))
       = [.saved, .closed] := by
   refine ⟨?_, by decide⟩
-  simp only [NoOverlapRun, and_true]
+  simp only [NoOverlapRunHist, and_true]
   refine ⟨?_, ?_, ?_, ?_, ?_, ?_⟩ <;> (intro d; cases d <;> decide)
-
-/-! ## Non-vacuity: the repaired controller still admits connections up to the limits, and refuses the racing one -/
-
-/-- on the race schedule the repaired controller establishes the first connection and refuses the second at its check -/
-example : (run .sound (init { maxIn := 1, maxIp := 3, maxOut := 1 } twoInbound) raceSchedule).bound .inb = [(1, 5000)]
-    ∧ ((run .sound (init { maxIn := 1, maxIp := 3, maxOut := 1 } twoInbound) raceSchedule).threads.map (·.pc))
-        = [.saved, .closed] := by decide
-
-/-- with room for both, both handshakes overlap and both connections are established: the limit is reached, not
-merely respected (T2's check waits for `reserveMu` until T1 has recorded its reservation) -/
-example : ((run .sound (init { maxIn := 2, maxIp := 3, maxOut := 1 } twoInbound) [0, 1, 0, 1, 1, 0, 1]).bound .inb).length = 2 := by
-  decide
-
-/-- a reservation released by a failed handshake is available again -/
-example :
-    let ths : List Thread :=
-      [{ dir := .inb, ip := 1, port := 5000, lport := 20338, pid := 1, fate := .hsFail },
-       { dir := .inb, ip := 1, port := 5001, lport := 20338, pid := 2, fate := .ok }]
-    ((run .sound (init { maxIn := 1, maxIp := 1, maxOut := 1 } ths) [0, 0, 0, 1, 1, 1]).bound .inb) = [(1, 5001)] := by
-  decide
 
 end OntVerif.Props.C36
